@@ -1,6 +1,7 @@
 package main
 
 import (
+	"bytes"
 	"fmt"
 	"strings"
 	"time"
@@ -192,6 +193,39 @@ func c18(r *hx.Run) {
 		line := "C18.bank " + msgTokens(q)
 		r.Emit(line, obs, fail, fmt.Sprint(hx.Fnv1a([]byte(line))), q != nil, "bank:"+strings.SplitN(obs, " ", 2)[0])
 	})
+	// "the given policy" of the default options is the caller's nonce, per option set: several default option sets alive at once
+	// (harness-only; nonce lengths 0..64 incl. a short one after a long one)
+	{
+		nonces := [][]byte{hx.RandBytes(rng, 64), hx.RandBytes(rng, 64), hx.RandBytes(rng, 20), nil, hx.RandBytes(rng, 1), hx.RandBytes(rng, 63), nonce}
+		var sets []rtmr.ParseTdxCcelOpts
+		for _, n := range nonces {
+			sets = append(sets, rtmr.TdxDefaultOpts(n))
+		}
+		for i, n := range nonces {
+			want := make([]byte, 64)
+			copy(want, n)
+			obs, fail := "bound", ""
+			got := sets[i].Validation.TdQuoteBodyOptions.ReportData
+			if !bytes.Equal(got, want) {
+				obs, fail = "rebound", fmt.Sprintf("default options created for nonce #%d (%d bytes) expect REPORT_DATA %x.. after later TdxDefaultOpts calls, not the nonce padded with zeros %x..", i, len(n), got[:min(8, len(got))], want[:8])
+			}
+			for j := range sets {
+				if j != i && sets[j].Validation == sets[i].Validation {
+					obs, fail = "shared", "two default option sets share one validation policy"
+				}
+			}
+			// and the gate really uses it: the re-signed sample carries `nonce` (64 bytes) as REPORT_DATA
+			va := gateStr(func() error { return validate.TdxQuote(proto.Clone(src).(*pb.QuoteV4), sets[i].Validation) })
+			wantVa := "err"
+			if bytes.Equal(want, src.TdQuoteBody.ReportData) {
+				wantVa = "ok"
+			}
+			if fail == "" && va != wantVa {
+				obs, fail = "gate-"+va, fmt.Sprintf("policy of default options for nonce #%d: validation of the sample quote says %s, its REPORT_DATA vs. the nonce says %s", i, va, wantVa)
+			}
+			r.Emit(fmt.Sprintf("# C18.defaults i=%d len=%d", i, len(n)), obs, fail, fmt.Sprintf("defaults|%d", i), true, "defaults")
+		}
+	}
 	// quote of an unsupported Go type (harness-only)
 	for _, bad := range []any{nil, "quote", 42, &pb.Header{}, []byte{1}} {
 		var st any
